@@ -309,6 +309,7 @@ pub fn build(id: &str, tier: &str, seed: u64, threads: usize) -> Option<Plan> {
                     if b.spec.nblocks() <= 2 * b.spec.w as u64 + 1 || !q {
                         fam_stale_pairs(b, &mut cases);
                         fam_stale_volley(b, &mut cases);
+                        fam_junk_timing(b, &mut cases);
                     }
                     fam_ack_patterns(b, &mut cases);
                     if b.spec.w <= 8 || b.spec.nblocks() <= 6 {
